@@ -48,11 +48,14 @@ AWriteThrough(k) ==
         e == Ev("WriteThrough", k, r.n, r.err, r.out, r.rest, d, r.d, r.w)
     IN Step(e, r.w, r.d, pos + r.n, TRUE)
 
+\* (the copy loop runs once per buffer: totals are bounded relative to the buffer so that the
+\* recursive operator stays shallow with the real header constants)
 AReadFrom(total, srcErr) ==
-    LET r == ReadLoop(w, d, total, srcErr, pos, <<>>, 0, TRUE)
+    /\ total <= 40 * w.buf + 40
+    /\ LET r == ReadLoop(w, d, total, srcErr, pos, <<>>, 0, TRUE)
         e == [Ev("ReadFrom", total, r.n, r.err, r.out, 0, d, r.d, r.w) EXCEPT !.k = total]
              @@ [total |-> total, srcErr |-> srcErr]
-    IN Step(e, r.w, r.d, pos + r.n, r.hdrfits)
+       IN Step(e, r.w, r.d, pos + r.n, r.hdrfits)
 
 AFlushFragment ==
     LET r == DoFlushFragment(w, d, pos)
